@@ -122,6 +122,16 @@ pub fn run_case(case: &Value) -> Value {
     if let Some(x) = extra_runtime {
         group.set_extra_runtime_script(x);
     }
+    // `set_inline`: [[path, module, content]...] applied through set_inline_script_content after the files were added
+    if let Some(arr) = case.get("set_inline").and_then(|x| x.as_array()) {
+        for it in arr {
+            let (p, m, c) = (it[0].as_str().unwrap_or(""), it[1].as_str().unwrap_or(""), it[2].as_str().unwrap_or(""));
+            let target = if group.get_tree(p).is_ok() { &mut group } else { &mut sub };
+            if let Err(p) = guarded("set_inline_script_content", || target.set_inline_script_content(p, m, c).ok()) {
+                panics.push(p);
+            }
+        }
+    }
     if split.is_some() {
         if let Err(p) = guarded("import_group", || group.import_group(&sub)) {
             panics.push(p);
